@@ -31,7 +31,7 @@ class Gen:
             max_t=4, max_m=4, p_nonexcl=0.25, p_nested=0.15, p_struct=0.45, p_alias=0.2,
             p_rel=0.5, p_two_mods=0.2, p_fsm=0.12, p_wit=0.5, p_validate=0.2, p_enable=0.3,
             p_defect=0.0, sched="eager", p_body_in_struct=0.15, rdep_rel=True, nested=True,
-            p_rdyrun=0.0, p_badrun=0.0, p_chain=0.0, p_relalias=0.0, p_xmod=0.0, p_constenable=0.0, p_always=0.0, wit_rounds=1, p_fwdarg=0.0, fwd_safe=True, p_xcall=0.0,
+            p_rdyrun=0.0, p_badrun=0.0, p_chain=0.0, p_relalias=0.0, p_xmod=0.0, p_constenable=0.0, p_always=0.0, wit_rounds=1, p_fwdarg=0.0, fwd_safe=True, p_xcall=0.0, p_dblrel=0.0, p_widecond=0.0, p_rdepconf=0.0,
         )
         self.opt.update(opt)
         self.nin = 0
@@ -172,6 +172,28 @@ class Gen:
                         a, c = c, a
                     self.rels.append(dict(a=a, b=c, kind="before", prio="L",
                                           rdep=o["rdep_rel"] and r.random() < 0.3))
+        # the same ordered pair related twice: add_conflict and schedule_before on (a, c), declared in either order
+        if o["p_dblrel"] > 0 and nb >= 2 and r.random() < o["p_dblrel"]:
+            a, c = r.sample(allb, 2)
+            if rank[a] > rank[c]:
+                a, c = c, a
+            two = [dict(a=a, b=c, kind="conflict", prio=r.choice(["U", "U", "L"]), rdep=False),
+                   dict(a=a, b=c, kind="before", prio="L", rdep=False)]
+            r.shuffle(two)
+            self.rels += two
+        # a ready-dependent ordering between two transactions that conflict through a shared exclusive method
+        # (the library must refuse it: it would deadlock)
+        if o["p_rdepconf"] > 0 and nt >= 2 and r.random() < o["p_rdepconf"]:
+            xs = [x for x in meths if not self.bodies[x - 1]["nonexcl"]]
+            t1, t2 = r.sample(trans, 2)
+            if rank[t1] > rank[t2]:
+                t1, t2 = t2, t1
+            if xs:
+                x = r.choice(xs)
+                for t in (t1, t2):
+                    if not any(s["caller"] == t and s["callee"] == x for s in self.sites):
+                        self.bodies[t - 1]["ch"].append(self.call(t, x))
+                self.rels.append(dict(a=t1, b=t2, kind="before", prio="L", rdep=True))
         # a relation may be declared on a forwarding method (Method.provide) instead of on the method itself;
         # it then relates the underlying method (aal / bal = length of the provide() chain at that endpoint)
         for rel in self.rels:
@@ -222,7 +244,8 @@ class Gen:
                 s = bad[0]
                 s["argk"], s["argv"] = "c", r.randint(0, 3)
         return dict(nin=self.nin, nargs=self.nargs, bodies=self.bodies, sites=self.sites, wits=self.wits,
-                    rels=self.rels, sched=o["sched"], roots=[roots[1], roots[2]], nmods=nmods, const0=self.const0)
+                    rels=self.rels, sched=o["sched"], roots=[roots[1], roots[2]], nmods=nmods, const0=self.const0,
+                    widecond=r.random() < o["p_widecond"])
 
     def wrap_in_struct(self, node):
         r = self.r
@@ -610,8 +633,13 @@ def build(design, scheduler=None, netlist_only=False):
             for n in nodes:
                 t = n["t"]
                 if t == "if":
+                    def cnd(i, k):
+                        # multi-bit condition values (non-zero means true): 2 * input, i.e. bit 0 always clear
+                        if design.get("widecond") and (i + k) % 2 == 0:
+                            return Cat(Const(0, 1), sig(i))
+                        return sig(i)
                     for k, a in enumerate(n["alts"]):
-                        cm = m.If(sig(a["cond"])) if k == 0 else (m.Elif(sig(a["cond"])) if a["cond"] else m.Else())
+                        cm = m.If(cnd(a["cond"], k)) if k == 0 else (m.Elif(cnd(a["cond"], k)) if a["cond"] else m.Else())
                         with cm:
                             self.emit(m, a["ch"])
                 elif t == "switch":
